@@ -56,7 +56,9 @@ class CcAnyH(Harness):
         from pyvc.sym import intern_id
         did = intern_id(d).t
         i = fam.base.ivar
-        n_def = fsum(xs, lambda x: ite(x.id == d, 1, 0))
+        # `x == default_id` is variable.__eq__ (id comparison) for leaves and AtLeast.__eq__ (False against a str) for
+        # sub-propositions: only a leaf can be "the default"
+        n_def = fsum(xs, lambda x: ite(band(x.atom_truth(), x.id == d), 1, 0))
         n = seq_len(xs)
         restructured = band(n >= 2, n_def >= 1, n_def < n)
         if items:
@@ -68,7 +70,7 @@ class CcAnyH(Harness):
             g_out = gens[0].guard if gens else z3.BoolVal(False)
             igens = [s for s in inner.propositions.segs if type(s) is Gen]
             g_in = igens[0].guard if igens else z3.BoolVal(False)
-            is_def = fam.fn("id")(i) == did
+            is_def = z3.And(fam.fn("atom", Bo)(i), fam.fn("id")(i) == did)
             out.append(("cc.Any/struct.partition", band(lift(z3.Implies(fam.base.inrange(), g_out == is_def)),
                                                         lift(z3.Implies(fam.base.inrange(), g_in == z3.Not(is_def))))))
         else:
